@@ -436,7 +436,11 @@ func (ck *Check) Main(args []string) {
 		"wall_s":      round3(wall),
 		"violations":  nviol,
 	}
-	if err := writeJSON(filepath.Join(VerifDir(), "evidence", ck.Prop+".json"), ev); err != nil {
+	evDir := os.Getenv("VERIF_EVIDENCE_DIR") // scratch runs against mutants must not overwrite the real evidence
+	if evDir == "" {
+		evDir = filepath.Join(VerifDir(), "evidence")
+	}
+	if err := writeJSON(filepath.Join(evDir, ck.Prop+".json"), ev); err != nil {
 		fmt.Fprintln(os.Stderr, "cannot write evidence:", err)
 		os.Exit(2)
 	}
